@@ -80,7 +80,7 @@ TRUSTED = ['z3 nonlinear arithmetic and quantifier instantiation']
 
 
 def tasks(tier):
-    t = ['arith', 'stencil', 'cellsize', 'bounds', 'ncells', 'sound', 'update', 'cache', 'cellkey', 'octroot', 'pidspace', 'sortkeys', 'eshreach', 'boxes27', 'sentinel', 'sortnbrs', 'shreach', 'pidslices', 'stalecount', 'nnpsinit', 'context', 'query', 'complete', 'list', 'repoint', 'zrows', 'sortseg', 'sortflag',
+    t = ['arith', 'stencil', 'cellsize', 'bounds', 'ncells', 'sound', 'update', 'cache', 'cellkey', 'octroot', 'pidspace', 'sortkeys', 'eshreach', 'boxes27', 'sentinel', 'sortnbrs', 'shreach', 'pidslices', 'stalecount', 'nnpsinit', 'cidspace', 'context', 'query', 'complete', 'list', 'repoint', 'zrows', 'sortseg', 'sortflag',
             'lemma', 'oracle']
     return t + ['canary']
 
@@ -1940,6 +1940,59 @@ def replay_oct_threads(model, ob):
 
 
 # ----------------------------------------------------------------- pidspace
+def task_cidspace(ctx, repo):
+    """The z-order classes keep a cell id PER PARTICLE ID (cids[pid]) next to
+    arrays in sorted-key order (pids[position], keys[position]): a per-array
+    cell-id table (current_cids, current_cids_src/dst, iter_cids) is only
+    ever indexed by a particle id -- a value read from a pids table, the
+    destination index d_idx, or pids[...] itself -- never by a position in
+    the sorted order (found_idx, a loop counter)."""
+    m = repo.cython_module('pysph/base/z_order_nnps.pyx')
+    obs = []
+    nsub = 0
+    tables = ('current_cids', 'current_cids_src', 'current_cids_dst',
+              'iter_cids')
+    for cname in sorted(m.classes):
+        for fname, fn in sorted(m.methods(cname).items()):
+            pid_names = {'d_idx'}
+            for node in ast.walk(fn):
+                if isinstance(node, ast.Assign) and len(node.targets) == 1 \
+                        and isinstance(node.targets[0], ast.Name) and \
+                        isinstance(node.value, ast.Subscript) and \
+                        'pids' in ast.unparse(node.value.value):
+                    pid_names.add(node.targets[0].id)
+            bad = []
+            for node in ast.walk(fn):
+                if not isinstance(node, ast.Subscript):
+                    continue
+                base = ast.unparse(node.value)
+                if base.replace('self.', '') not in tables:
+                    continue
+                nsub += 1
+                ix = node.slice
+                ok = (isinstance(ix, ast.Name) and ix.id in pid_names) or (
+                    isinstance(ix, ast.Subscript) and
+                    'pids' in ast.unparse(ix.value))
+                if not ok:
+                    bad.append('%s[%s] at line %d' % (
+                        base, ast.unparse(ix), getattr(node, 'lineno', 0)))
+            if any(isinstance(n_, ast.Subscript) and ast.unparse(
+                    n_.value).replace('self.', '') in tables
+                    for n_ in ast.walk(fn)):
+                ctx.function(m, fn, '%s.%s' % (cname, fname))
+                obs.append(Obligation('cidspace.%s.%s' % (cname, fname), [],
+                                      z3.BoolVal(not bad), m.path,
+                                      extra=dict(indexed_by_position=bad)))
+    obs.append(Obligation('cidspace.tables_found', [],
+                          z3.BoolVal(nsub >= 8), m.path,
+                          extra=dict(subscripts=nsub)))
+    ctx.prove('cidspace.cell_id_tables_are_indexed_by_particle_id',
+              z3only(obs), use_nf=False,
+              replay=replay_oracle(['hvar'], algs=['ExtendedZOrderNNPS',
+                                                   'ZOrderNNPS'],
+                                   caches=[False], history=False))
+
+
 def task_pidspace(ctx, repo):
     """Octree builders and the octree query keep two index spaces apart: a
     POSITION in an index container (self.pids, an `indices` vector) and the
